@@ -787,12 +787,41 @@ def _bare_retyped(x):
     return False
 
 
+JSONLD_NATIVE = {XSD + "string", XSD + "integer", XSD + "decimal", XSD + "double", XSD + "boolean", XSD + "float"}
+
+
+def _valid_canonical(x):
+    try:
+        l_ = Literal(x[1], datatype=URIRef(x[3]))
+        return l_.value is not None and str.__str__(l_) == x[1]
+    except Exception:  # noqa: BLE001
+        return False
+
+
+def _falsy_native(o):
+    """a literal the JSON-LD writer turns into a JSON value that is false in Python: "", 0, 0.0, false"""
+    if o[0] != "L" or o[2] is not None:
+        return False
+    if o[3] is None or o[3] == XSD + "string":
+        return o[1] == ""
+    if o[3] in JSONLD_NATIVE:
+        try:
+            v = Literal(o[1], datatype=URIRef(o[3])).toPython()
+            return not isinstance(v, Literal) and not v
+        except Exception:  # noqa: BLE001
+            return False
+    return False
+
+
 def triggers(graph, fmt, base=None, bind=None, extra=None):
     """Finding ids whose *input-side* trigger holds (see known_findings.d/C03.json).  Ordered."""
     out = []
     lits = list(literals_of(graph))
     if any(x[3] is not None and not is_canonical(x[1], x[3]) for x in lits):
         out.append("F15c")
+    if (extra or {}).get("canon"):
+        # longturtle canon=True re-reads the graph through N-Triples first: the Turtle writer sees normalised literals
+        lits = [list(x[:1]) + list(_norm_lit(tuple(x))[1:]) for x in lits]
     if fmt in TURTLE_FAMILY:
         for x in lits:
             if x[3] == XSD + "double":
@@ -818,6 +847,15 @@ def triggers(graph, fmt, base=None, bind=None, extra=None):
             out.append("F15l")
         if any(pfx == "" for pfx, _ in (bind or [])) and any(x[3] == RDFNS + "XMLLiteral" and "<" in x[1] for x in lits):
             out.append("F15p")
+    if fmt == "json-ld" and extra and ("context" in extra or extra.get("auto_compact")):
+        # an active context switches the writer to native JSON values
+        if any(x[3] == XSD + "string" or (x[3] in JSONLD_NATIVE and not _valid_canonical(x)) for x in lits):
+            out.append("F15t")
+        groups = {}
+        for t in graph:
+            groups.setdefault((tuple(t[0]), t[1][1]), []).append(t[2])
+        if any(len(os_) >= 2 and any(_falsy_native(o) for o in os_) for os_ in groups.values()):
+            out.append("F15u")
     if fmt == "json-ld":
         if unreachable_bnode(graph):
             out.append("F15i")
@@ -957,6 +995,12 @@ def residual_ok(graph, fmt, base, bind, tr, A, B, exc):
         A = {t for t in A if not (t[1][1] == TYPE and t[2][0] == "I" and type_object_unsafe([[list(t[0]), list(t[1]), list(t[2])]]))}
         B = {t for t in B if not (t[1][1] == TYPE and t[2][0] == "I" and
                                   (t[2][1] not in inputs or type_object_unsafe([[list(t[0]), list(t[1]), list(t[2])]])))}
+    if "F15t" in tr or "F15u" in tr:
+        # literals the active-context writer renders as native JSON values, and plain literals on the way back
+        def nat(k):
+            return k[0] == "L" and k[2] is None and (k[3] in JSONLD_NATIVE or k[3] in (None, ""))
+        A = {t for t in A if not nat(t[2])}
+        B = {t for t in B if not nat(t[2])}
     if "F15p" in tr:
         A = {t for t in A if not (t[2][0] == "L" and t[2][3] == RDFNS + "XMLLiteral")}
         B = {t for t in B if not (t[2][0] == "L" and t[2][3] == RDFNS + "XMLLiteral")}
@@ -1392,7 +1436,7 @@ class TtlString(Suite):
 
 # ---------------------------------------------------------------- graph level: conformance only
 TRIGGER_NUM = {"F15": 1, "F15b": 2, "F15c": 3, "F15d": 4, "F15e": 5, "F15f": 6, "F15g": 7, "F15h": 8,
-               "F15i": 9, "F15j": 10, "F15k": 11, "F15l": 12, "F15m": 13, "F15n": 14, "F15o": 15, "F15p": 16, "F15r": 17, "F15s": 18}
+               "F15i": 9, "F15j": 10, "F15k": 11, "F15l": 12, "F15m": 13, "F15n": 14, "F15o": 15, "F15p": 16, "F15r": 17, "F15s": 18, "F15t": 19, "F15u": 20}
 FIXED_FINDINGS = {"F15b", "F15e", "F15f", "F15h", "F15m", "F15o", "F15r"}   # repaired in /repo
 BINDS = [None, None, [["ex", "http://e/"], ["ns", "http://e/ns#"]], [["", "http://e/"]], [["ex", "http://e/ns#"]]]
 BASES = [None, None, None, "http://e/", "http://e/", "http://other.org/"]
@@ -1420,6 +1464,13 @@ class RoundTrip(Suite):
         graph, tags = gen_graph(rng)
         case = {"fmt": FORMATS[i % len(FORMATS)], "graph": graph, "base": rng.choice(BASES), "bind": rng.choice(BINDS),
                 "tags": tags, "io": None}
+        if case["fmt"] == "json-ld" and rng.random() < 0.35 and not any(t[1][1] == TYPE and t[2][0] != "I" for t in graph):
+            # (rdf:type with a literal / blank-node object under an active context is left out: "@type" values are read
+            #  back as IRIs - a further defect region of the compacting writer that is not examined here)
+            # serialiser options: an active context (native JSON values, compaction)
+            case["extra"] = rng.choice([{"auto_compact": True}, {"context": {"@vocab": "http://e/"}},
+                                        {"context": {"ex": "http://e/", "ns": "http://e/ns#"}}])
+            case["tags"] = tags + ["jsonld_context"]
         if case["fmt"] == "longturtle" and rng.random() < 0.4:
             case["extra"] = {"canon": True}      # the serialiser's own option: canonicalise before writing
             case["tags"] = tags + ["canon"]
